@@ -110,7 +110,12 @@ def r01_1_sul(chk, m):
         chk.consulted_functions.add(q)
     for k, o in enumerate(normal):
         res = o.value
-        bts = o.st.fields(res).get("_bts") if isinstance(res, ObjV) else None
+        # the bytes held by the wrapper object: its one bytes-valued field (whatever it is called)
+        bts = None
+        if isinstance(res, ObjV):
+            cand = [v for v in o.st.fields(res).values() if isinstance(v, SeqV) and v.kind == "bytes" and
+                    not (v.const is not None and len(v.const) == 0)]
+            bts = cand[0] if len(cand) == 1 else o.st.fields(res).get("_bts")
         where = rep.where
         if not isinstance(bts, SeqV):
             raise AnalysisError("SUL bytes not found in the LogicalRecordBytes wrapper")
